@@ -4,7 +4,8 @@
    to the generated trigonometric code).  All statements are at
    ROps (Coq's real numbers): for all shapes, all real pixel scales > 0 (<> 0 where that suffices), all real origins. *)
 From Coq Require Import ZArith Reals Lra List Bool QArith.
-From PAV Require Import Base.NumOps Gen.Gen_geometry Model.C02 Model.C02x Proofs.C02 Proofs.C02r Proofs.C02c.
+From PAV Require Import Base.NumOps Gen.Gen_geometry Model.C02 Model.C02x Proofs.C02 Proofs.C02r Proofs.C02c Proofs.C02n.
+From PAV Require Model.C01.
 Import ListNotations.
 Local Open Scope R_scope.
 
@@ -351,6 +352,23 @@ Theorem C02_centres_half_pixel_inside_extent : forall H W sy sx oy ox i j, 0 < s
   xmin + sx / 2 <= snd c <= xmax - sx / 2 /\ ymin + sy / 2 <= fst c <= ymax - sy / 2.
 Proof. exact centres_half_pixel_inside_extent. Qed.
 
+
+(* ---- 16. with property C01's development (slim <-> native): Grid2D.from_mask(mask).native -- C01's native_from applied to the slim
+         values -- holds the centre of the k-th unmasked pixel AT that pixel and (0, 0) at masked pixels.  C01 indexes pixels by nat
+         pairs (native_for_slim = the row-major unmasked pixels, C01_native_for_slim_is_rowmajor_unmasked); zpair injects them into Z. *)
+Theorem C02_from_mask_native : forall (m : mask) H W sy sx oy ox k d, Model.C01.rectb H W m = true -> (0 < H)%nat -> sy <> 0 -> sx <> 0 ->
+  (k < Model.C01.count m)%nat ->
+  let G := @Grid2D_from_mask ROps (m, (sy, sx), (oy, ox)) in
+  let p := nth k (Model.C01.native_for_slim m) d in
+  Model.C01.get2 (0, 0) (Model.C01.native_from (0, 0) m (fst G)) p = @centre_spec ROps (rows m, cols m) (sy, sx) (oy, ox) (zpair p).
+Proof. exact from_mask_native. Qed.
+Theorem C02_from_mask_native_masked : forall (m : mask) H W sy sx oy ox p, Model.C01.rectb H W m = true -> (0 < H)%nat ->
+  Model.C01.mget m p = true ->
+  Model.C01.get2 (0, 0) (Model.C01.native_from (0, 0) m (fst (@Grid2D_from_mask ROps (m, (sy, sx), (oy, ox))))) p = (0, 0).
+Proof. exact from_mask_native_masked. Qed.
+Theorem C02_unmasked_is_C01_unmasked : forall (m : mask), unmasked m = map zpair (Model.C01.unmasked_spec m).
+Proof. exact unmasked_is_C01. Qed.
+
 (* ------------------------------------------------------------------ non-vacuity: the hypothesis sets are met by non-trivial
    inputs (non-square shape, anisotropic scales, unequal non-zero origin), and the models run (QOps) *)
 Example C02_ex_interior_point_hypotheses :
@@ -422,6 +440,11 @@ Example C02_ex_outside_hypotheses : @lo_spec ROps 4 (1 / 2) 1 - 1 / 2 < - 1 / 10
   /\ @pixel_coordinates_1d_from QOps (- 1 # 10)%Q 4%Z (1 # 2)%Q 1%Q = 0%Z.
 Proof. split; [unfold lo_spec, two; cbn [T add sub mul div ofZ ROps]; lra | vm_compute; reflexivity]. Qed.
 
+Example C02_ex_native_hypotheses_C01 :
+  let m := [[false; true; false; false]; [false; true; true; false]; [false; false; false; true]] in
+  Model.C01.rectb 3 4 m = true /\ Model.C01.count m = 8%nat /\ nth 2 (Model.C01.native_for_slim m) (0, 0)%nat = (0, 3)%nat.
+Proof. repeat split; vm_compute; reflexivity. Qed.
+
 Print Assumptions C02_centre_formula_grid.
 Print Assumptions C02_centre_formula_scalar.
 Print Assumptions C02_centre_formula_1d.
@@ -492,3 +515,6 @@ Print Assumptions C02_orientation.
 Print Assumptions C02_index_outside_extent_1d.
 Print Assumptions C02_offset_is_relative_to_origin_plus_centre.
 Print Assumptions C02_centres_half_pixel_inside_extent.
+Print Assumptions C02_from_mask_native.
+Print Assumptions C02_from_mask_native_masked.
+Print Assumptions C02_unmasked_is_C01_unmasked.
